@@ -420,6 +420,7 @@ func parseString(l *syntax.Lexer) (syntax.Token, error) {
 		case syntax.RuneEOF:
 			return syntax.Token{}, zerr.IncompleteString(l.GetCursor())
 		case syntax.RuneCR, syntax.RuneLF:
+			l.EndLine(l.GetCursor())
 			p := l.Peek()
 			if (ch == syntax.RuneCR && p == syntax.RuneLF) || (ch == syntax.RuneLF && p == syntax.RuneCR) {
 				literal = append(literal, ch)
@@ -607,6 +608,7 @@ func parseComment(l *syntax.Lexer) (bool, syntax.Token, error) {
 						EndIdx:   l.GetCursor(),
 					}, nil
 				}
+				l.EndLine(l.GetCursor())
 				p := l.Peek()
 				if (ch == syntax.RuneCR && p == syntax.RuneLF) || (ch == syntax.RuneLF && p == syntax.RuneCR) {
 					l.Next()
